@@ -12,7 +12,7 @@ import re
 
 class FSpec:
     def __init__(self, cname, ret_c, params, pre=(), post=(), exc_post=(), frame=(), frame_objs=(),
-                 may_throw=(), olds=(), real="", doc="", allocs_ret=None, stub_extra="", frame_fresh=(), frame_fresh_mat=()):
+                 may_throw=(), olds=(), real="", doc="", allocs_ret=None, stub_extra="", frame_fresh=(), frame_fresh_mat=(), frame_inplace=(), frame_inplace_mat=()):
         self.cname = cname
         self.ret_c = ret_c
         self.params = list(params)          # [(ctype, name)]
@@ -29,6 +29,11 @@ class FSpec:
         self.stub_extra = stub_extra        # extra C in the stub before the post assumes (e.g. allocation of results)
         self.frame_fresh = list(frame_fresh)          # [(pointer lvalue, elem ctype)]: may be re-pointed to a fresh array
         self.frame_fresh_mat = list(frame_fresh_mat)  # Mat lvalues that may be replaced by a fresh matrix
+        # pointer / Mat members the real function may swap with an equally-sized local buffer.  No caller holds an alias,
+        # so the call-site stub models this as an in-place havoc of the pointee (dfcc forbids allocation inside loops
+        # that carry a loop contract, and these callees are called from such loops).
+        self.frame_inplace = list(frame_inplace)
+        self.frame_inplace_mat = list(frame_inplace_mat)
 
     # ------------------------------------------------------------------ dfcc frame contract
     def frame_contract(self, extra_requires=()):
@@ -36,7 +41,9 @@ class FSpec:
         for _, e in list(self.pre) + [("", r) for r in extra_requires]:
             c.append("__CPROVER_requires(%s)" % e)
         tg = list(self.frame) + [lv for lv, _ in self.frame_fresh] + list(self.frame_fresh_mat) + \
-            ["__CPROVER_object_whole(%s)" % p for p in self.frame_objs]
+            list(self.frame_inplace) + list(self.frame_inplace_mat) + \
+            ["__CPROVER_object_whole(%s)" % p for p in list(self.frame_objs) + list(self.frame_inplace)] + \
+            ["__CPROVER_object_whole(%s.coltag)" % m for m in self.frame_inplace_mat]
         if self.may_throw:
             tg.append("verif_exc")
         c.append("__CPROVER_assigns(%s)" % ", ".join(tg))
@@ -57,6 +64,10 @@ class FSpec:
             L.append("  { __typeof__(%s) verif_nd; %s = verif_nd; }" % (lv, lv))
         for p in self.frame_objs:
             L.append("  __CPROVER_havoc_object(%s);" % p)
+        for p in self.frame_inplace:
+            L.append("  __CPROVER_havoc_object(%s);" % p)
+        for m in self.frame_inplace_mat:
+            L.append("  __CPROVER_havoc_object(%s.coltag); %s.cell = nondet_Scalar();" % (m, m))
         for lv, ty in self.frame_fresh:
             L.append("  { Index verif_n = nondet_Index(); __CPROVER_assume(0 <= verif_n && verif_n <= NMAX); %s = malloc(verif_n * sizeof(%s)); __CPROVER_assume(%s != NULL); }" % (lv, ty, lv))
         for lv in self.frame_fresh_mat:
